@@ -148,6 +148,170 @@ def replay_static(chk, ed, nv, cols, lattice, rng, what):
         chk.harness_error("C17 static table: '%s' did not reproduce" % what)
 
 
+def fill_command(chk, tier, rng):
+    """`cij fill`: the real click callback runs on a token static file.  pandas.read_table is replaced by the contract it is used for (a
+    whitespace-separated table with one header line: tokens -> symbols), fill_cij runs symbolically (exact least squares) and the frame
+    handed to to_string is captured.  Decided: the two header lines and everything after the modulus block (lattice block) are re-emitted
+    unchanged, exactly N+1 lines are consumed for the table, the options reach fill_cij, and the emitted table is fill_cij of the parsed
+    table (which C08 / C09 decide)."""
+    import contextlib
+    import io
+    import pandas
+    import cij.cli.fill as cf
+    import cij.util.fill as F
+    from harness import fill_common as FC
+    from symnum.npproxy import NumpyProxy
+    chk.encode(cf.main.callback if hasattr(cf.main, "callback") else cf.main)
+    cases = [("cubic", ["c11", "C12", "c44"], dict(ignore_residuals=False, ignore_rank=False, drop_atol=1e-8)),
+             ("hexagonal", ["c11", "c12"], dict(ignore_residuals=False, ignore_rank=True, drop_atol=1e-6))]
+    if tier != "quick":
+        cases.append(("trigonal6", ["c11", "c12", "c13", "c14", "c33", "c44"], dict(ignore_residuals=True, ignore_rank=False, drop_atol=1e-8)))
+    for system, cols, opts in cases:
+        name = "cij fill -s %s %s" % (system, " ".join("--%s %s" % (k.replace("_", "-"), v) for k, v in opts.items() if v not in (False, 1e-8)))
+        ctx = new_context()
+        tk = Tokens(ctx)
+        nv = 2
+        head = ["a comment line 1 2 3", "%s %d %s" % (tk.new("tVref"), nv, tk.new("tMass"))]
+        vol = [tk.new("tV%d" % i) for i in range(nv)]
+        tab = [[tk.new("t_%d_%d" % (i, j)) for j in range(len(cols))] for i in range(nv)]
+        table_lines = ["V " + " ".join(cols)] + [" ".join([vol[i]] + tab[i]) for i in range(nv)]
+        tail = ["", "lattice parameters"] + ["  ".join(tk.new("tL_%d_%d" % (i, a)) for a in range(3)) for i in range(nv)]
+        text = "\n".join(head + table_lines + tail) + "\n"
+        fn = os.path.join(tempfile.gettempdir(), "c17_fill_%d.dat" % os.getpid())
+        with open(fn, "w") as fp:
+            fp.write(text)
+        seen = {}
+
+        def read_table(sio, header=0, index_col=None, sep=None, **kw):
+            rows = [ln.split() for ln in sio.read().splitlines() if ln.strip()]
+            seen["rows"] = len(rows) - 1
+            data = {c: [tk.float(r[j]) for r in rows[1:]] for j, c in enumerate(rows[0])}
+            return pandas.DataFrame(data, dtype=object)
+        proxy = NumpyProxy()
+        real_fill = F.fill_cij
+
+        def fill_recorder(elast, **kw):
+            seen["kwargs"] = dict(kw)
+            seen["parsed"] = elast.copy()
+            return real_fill(elast, **kw)
+        cap = {}
+        orig_ts, orig_rt = pandas.DataFrame.to_string, pandas.read_table
+
+        def fake_to_string(frame, *a, **k):
+            cap["df"] = frame
+            cap["kw"] = k
+            return "<<TABLE>>"
+        t0 = time.time()
+        fails = []
+        out = io.StringIO()
+        try:
+            pandas.DataFrame.to_string, pandas.read_table = fake_to_string, read_table
+            ex = X.Explorer(max_paths=32, name="C17:fill")
+            ex.prefer = FC.no_drop_cut
+
+            def run():
+                out.seek(0)
+                out.truncate()
+                with patched((F, {"numpy": proxy, "fill_cij": fill_recorder})), contextlib.redirect_stdout(out):
+                    cf.main.callback(input02=fn, system=system, **opts)
+                return out.getvalue()
+            paths = ex.run(run)
+        except (SymError, X.PathBudgetExceeded) as e:
+            chk.inconclusive(name, str(e))
+            continue
+        finally:
+            pandas.DataFrame.to_string, pandas.read_table = orig_ts, orig_rt
+            os.unlink(fn)
+        p = paths[0]
+        if p.exception is not None:
+            fails.append("raises %s: %s" % (type(p.exception).__name__, p.exception))
+        else:
+            want_text = "\n".join(head) + "\n" + "<<TABLE>>\n" + "\n".join(tail) + "\n"
+            if p.result != want_text:
+                fails.append("header lines / lattice block are not re-emitted unchanged around the table")
+            if seen.get("rows") != nv:
+                fails.append("%s table rows handed to the filling instead of %d" % (seen.get("rows"), nv))
+            if seen.get("kwargs") != dict(system=system, **opts):
+                fails.append("options reach fill_cij as %s" % seen.get("kwargs"))
+            if cap.get("kw", {}).get("index", True) is not False:
+                fails.append("the row index is printed as an extra column")
+            # the emitted frame is fill_cij of the parsed table
+            try:
+                ex2 = X.Explorer(max_paths=32, name="C17:fill:direct")
+                ex2.prefer = FC.no_drop_cut
+                parsed = pandas.DataFrame({c: [tk.float(t_) for t_ in ([vol[i] for i in range(nv)] if c == "V" else [tab[i][cols.index(c)] for i in range(nv)])]
+                                           for c in ["V"] + cols}, dtype=object)
+                direct, _, _ = FC.run_fill(F, parsed, system, explorer=ex2, **opts)
+                d = direct[0].result
+                got = cap.get("df")
+                if got is None or list(got.columns) != list(d.columns):
+                    fails.append("emitted columns %s instead of %s" % (list(got.columns) if got is not None else None, list(d.columns)))
+                else:
+                    for c in d.columns:
+                        if not all(same(a, b, name) for a, b in zip(got[c].tolist(), d[c].tolist())):
+                            fails.append("emitted column %s is not the symmetry-filled column" % c)
+            except Exception as e:
+                fails.append("direct fill for comparison failed: %s: %s" % (type(e).__name__, e))
+        chk.obligation(name + ": header and lattice block preserved, N+1 lines consumed, options forwarded, emitted table == fill_cij(parsed table)",
+                       "unsat" if not fails else "sat", seconds=round(time.time() - t0, 2), kind="command-structure", detail=fails[:3])
+        if fails:
+            replay_fill_command(chk, system, cols, opts, fails[0])
+
+
+def replay_fill_command(chk, system, cols, opts, what):
+    from click.testing import CliRunner
+    import cij.cli.fill as cf
+    import cij.util.fill as F
+    import cij.io.traditional.elast_dat as ed
+    import pandas
+    vals = {"c11": [300.0, 320.0], "c12": [100.0, 110.0], "c13": [90.0, 95.0], "c14": [10.0, 11.0], "c33": [280.0, 300.0], "c44": [80.0, 85.0]}
+    if opts.get("drop_atol", 1e-8) != 1e-8:
+        vals["c12"] = [300.0 - 1e-7, 320.0 - 1e-7]       # (c11 - c12)/2 lies between the default and the requested drop tolerance
+    lines = ["comment", "400.000 2 123.456", "V " + " ".join(cols)] + ["%.3f " % v + " ".join("%.9f" % vals[c.lower()][i] for c in cols) for i, v in enumerate((400.0, 380.0))]
+    tail = ["", "lattice parameters", "5.1 5.2 5.3", "5.0 5.1 5.2"]
+    fn = os.path.join(tempfile.gettempdir(), "c17_fillr_%d.dat" % os.getpid())
+    with open(fn, "w") as fp:
+        fp.write("\n".join(lines + tail) + "\n")
+    try:
+        args = [fn, "-s", system] + (["--ignore-rank"] if opts.get("ignore_rank") else []) + (["--ignore-residuals"] if opts.get("ignore_residuals") else []) + ["--drop-atol", repr(opts.get("drop_atol", 1e-8))]
+        r = CliRunner().invoke(cf.main, args)
+        if r.exit_code != 0:
+            chk.violation("fill-command:raises", "cij fill %s fails: %r" % (" ".join(args[1:]), r.exception), dict(lines=lines))
+            return
+        outl = r.output.splitlines()
+        if outl[:2] != lines[:2] or outl[-len(tail):] != tail:
+            chk.violation("fill-command:frame", "cij fill does not re-emit the header lines / lattice block unchanged", dict(output=outl[:3] + outl[-4:]))
+            return
+        with open(fn, "w") as fp:
+            fp.write(r.output)
+        try:
+            back = ed.read_elast_data(fn)
+        except Exception as e:
+            chk.violation("fill-command:not-a-table", "the output of cij fill is not a readable static table: %s: %s" % (type(e).__name__, e), dict(output=outl[:5]))
+            return
+        import warnings
+        with warnings.catch_warnings():
+            warnings.simplefilter("ignore")
+            want = F.fill_cij(pandas.DataFrame(dict([("V", [400.0, 380.0])] + [(c, vals[c.lower()]) for c in cols])), system=system, **opts)
+        for i in range(2):
+            got = {("c%d%d" % k.v): v for k, v in back.volumes[i].static_elastic_modulus.items()}
+            if sorted(got) != sorted(c.lower() for c in want.columns if c != "V"):
+                chk.violation("fill-command:columns", "cij fill %s emits components %s, fill_cij with these options gives %s" % (
+                    " ".join(args[1:]), sorted(got), sorted(c.lower() for c in want.columns if c != "V")), dict(lines=lines))
+                return
+            for c in want.columns:
+                if c == "V":
+                    continue
+                if c.lower() not in got or abs(got[c.lower()] - float(want[c].iloc[i])) > 1e-4 * (1 + abs(float(want[c].iloc[i]))):
+                    chk.violation("fill-command:content", "cij fill -s %s: component %s of row %d is %s in the output, fill_cij gives %s" % (
+                        system, c, i, got.get(c.lower()), float(want[c].iloc[i])), dict(lines=lines))
+                    return
+    finally:
+        if os.path.exists(fn):
+            os.unlink(fn)
+    chk.harness_error("C17 fill command: '%s' did not reproduce" % what)
+
+
 def build_phonon(tk, md, nv, nq, np_, symbolic=True, rng=None):
     vols = []
     for i in range(nv):
@@ -272,6 +436,7 @@ def main():
     rng = random.Random(seed() + 17)
     static_table(chk, ed, tier, rng)
     phonon_roundtrip(chk, qi, md, tier, rng)
+    fill_command(chk, tier, rng)
     chk.witness("readers-reached", "sat" if chk.obligations else "unsat")
     chk.bound(static_tables="1-4 rows, 1-13 columns in mixed spellings, with and without lattice block", phonon_files="1-4 volumes, 1-4 q-points, 3-9 modes")
     chk.stub("module-global `float` of elast_dat.py / qha_input.py -> token-aware float (tokens become symbols, everything else is the real float); "
